@@ -228,6 +228,7 @@ def oracle_C08(ctx, pexpect, results, real_peers):
     if real_peers:
         real_peer_send(ctx, pexpect)
         send_after_await(ctx, pexpect)
+        send_after_reads(ctx, pexpect)
 
 
 def write_all_cases(ctx, pexpect, n):
@@ -355,6 +356,68 @@ def send_after_await(ctx, pexpect):
                 except OSError:
                     pass
     ctx.oracle_stats['send_after_await'] = 3
+
+
+def send_after_reads(ctx, pexpect):
+    """histories: reads that end in TIMEOUT (with a small positive timeout, with timeout 0) or succeed, THEN a payload larger than
+    the kernel buffers to a peer that starts reading only later: what the reads did to the descriptor / socket (timeouts,
+    blocking mode) must not leak into the send - the peer receives all of it, send() raises nothing"""
+    import socket
+    import threading
+    import time
+    from pexpect import fdpexpect, socket_pexpect
+    size = 1500000
+    payload = (b'0123456789abcdef' * (size // 16 + 1))[:size]
+    tried = 0
+    for kind in ('socket', 'fd'):
+        for history in (['t-small'], ['t-zero'], ['ok', 't-small'], ['t-small', 'ok', 't-zero']):
+            a, b = socket.socketpair()
+            f = fdpexpect.fdspawn(a.fileno(), timeout=20) if kind == 'fd' else socket_pexpect.SocketSpawn(a, timeout=20)
+            received = []
+
+            def reader():
+                time.sleep(0.4)           # slower than any timeout the reads used
+                total = 0
+                while total < size:
+                    d = b.recv(65536)
+                    if not d:
+                        break
+                    total += len(d)
+                received.append(total)
+            try:
+                for h_ in history:
+                    if h_ == 'ok':
+                        b.sendall(b'READY')
+                        f.expect_exact(b'READY', timeout=5)
+                    else:
+                        try:
+                            f.expect_exact(b'never', timeout=0.05 if h_ == 't-small' else 0)
+                        except pexpect.TIMEOUT:
+                            pass
+                th = threading.Thread(target=reader)
+                th.start()
+                try:
+                    n = f.send(payload)
+                except Exception as e:
+                    n = repr(e)
+                th.join(15)
+                tried += 1
+                if not received or received[0] != size or n != size:
+                    try:
+                        b.shutdown(socket.SHUT_RDWR)
+                    except OSError:
+                        pass
+                    th.join(2)
+                    ctx.hit('C08/after-reads-%s' % kind, '%s transport: after the reads %r, send() of %d bytes to a peer that starts reading 0.4 s later gave %r and the peer received %r'
+                            % (kind, history, size, n, received[:1]), {'size': size, 'history': history, 'transport': kind})
+                    return
+            finally:
+                for s_ in (a, b):
+                    try:
+                        s_.close()
+                    except OSError:
+                        pass
+    ctx.oracle_stats['send_after_reads'] = tried
 
 
 def real_peer_send(ctx, pexpect):
